@@ -8,11 +8,54 @@ func init() {
 // valid claims-sets built directly, through setters and by decoding; the
 // emitted bytes are compared with the model's encoder (whose format is
 // proved) and re-read by the Coq CBOR parser
+// tokens from the independent writer whose components carry foreign material the decoder tolerates
+// (unknown keys, null optional fields, permuted order): what the library re-emits must be the profile's format
+func genReenc(r *rng, n int, emit func(string)) {
+	for i := 0; i < n; i++ {
+		kind := 1 + r.intn(2)
+		t := validToken(kind, r)
+		ncomp := 1 + r.intn(3)
+		comps := make([]cv, ncomp)
+		sizes := []int{32, 48, 64}
+		for j := range comps {
+			ps := []kvp{{cUint(2), cBytes(rb(sizes[r.intn(3)], byte(r.intn(256))))}, {cUint(5), cBytes(rb(sizes[r.intn(3)], byte(r.intn(256))))}}
+			switch r.intn(6) {
+			case 0:
+				ps = append(ps, kvp{cUint(3), cUint(7)})
+			case 1:
+				ps = append(ps, kvp{cUint(4), cNull})
+			case 2:
+				ps = append(ps, kvp{cUint(1), cText("BL")}, kvp{cUint(99), cText("x")})
+			case 3:
+				ps = append(ps, kvp{cUint(6), cNull}, kvp{cUint(1), cNull})
+			case 4:
+				ps = append(ps, kvp{cUint(4), cText("")})
+			}
+			if r.intn(2) == 0 {
+				ps[0], ps[len(ps)-1] = ps[len(ps)-1], ps[0]
+			}
+			comps[j] = cMap(ps...)
+		}
+		t["swc"] = cArray(comps...)
+		var extra []kvp
+		if r.intn(3) == 0 {
+			extra = append(extra, kvp{cUint(9000 + uint64(r.intn(50))), cText("unknown")})
+		}
+		order := append([]string{}, claimOrder...)
+		for j := len(order) - 1; j > 0; j-- {
+			k := r.intn(j + 1)
+			order[j], order[k] = order[k], order[j]
+		}
+		emit("REENC " + hexTok(assemble(kind, t, order, extra, false)))
+	}
+}
+
 func genC10(tier string, seed uint64, emit func(string)) {
 	r := &rng{s: seed}
+	genReenc(r, map[bool]int{false: 400, true: 8000}[tier == "thorough"], emit)
 	n := 3000
 	if tier == "thorough" {
-		n = 100000
+		n = 36000
 	}
 	for kind := 1; kind <= 2; kind++ {
 		for i := 0; i < n; i++ {
@@ -74,9 +117,9 @@ func joinSp(l []string) string {
 // invalid ones (encode / decode / re-encode)
 func genC09(tier string, seed uint64, emit func(string)) {
 	r := &rng{s: seed}
-	n := 2000
+	n := 1600
 	if tier == "thorough" {
-		n = 100000
+		n = 20000
 	}
 	// extension profiles encode through the embedding-aware serialiser: its output for set-but-zero
 	// optional claims is part of "decode(encode(x)) = x" for them
